@@ -52,7 +52,7 @@ func c30(r *sim.R) *sim.Violation {
 		id := sim.GoID()
 		n, ok := names[id]
 		if !ok {
-			n = fmt.Sprintf("%s%02d", op.Proc.Name, len(names))
+			n = op.Proc.Name + ":" + string(op.Kind) + " " + op.Path
 			names[id] = n
 		}
 		sc.Yield(n, string(op.Kind)+" "+op.Path)
